@@ -36,7 +36,7 @@ func init() {
 
 func (c16) ID() string { return "C16" }
 func (c16) Rule() string {
-	return "workload descriptors (seed, GOMAXPROCS in {1,2,4,8,16}, goroutines in {2,...,64}) each run in a FRESH process built with -race, in which the concurrent calls are the first library calls ever made: goroutines released by one barrier run private seed-shuffled lists mixing all encoders, QR and DataMatrix requests that climb through every Reed-Solomon degree (contended cache growth), Auto-mode inputs on the alphanumeric failure path, Scale with concurrent pixel reads of shared barcodes, and shared harness-owned ReedSolomonEncoders checked by syndromes; oracles: race-detector reports (any report is a violation), every digest equal to a sequential baseline process, no panic/deadlock, no blocked library goroutine after quiescence; non-trivial = a distinct (process descriptor, request) whose result was compared with the baseline"
+	return "workload descriptors (seed, GOMAXPROCS in {1,2,4,8,16}, goroutines in {2,...,64}) each run in a FRESH process built with -race, in which the concurrent calls are the first library calls ever made: goroutines released by one barrier run private seed-shuffled lists mixing all encoders, QR and DataMatrix requests that climb through every Reed-Solomon degree (contended cache growth), Auto-mode inputs on the alphanumeric failure path, Scale with concurrent pixel reads of shared barcodes, shared Scale wrappers whose first reads are made by all goroutines together, and shared harness-owned ReedSolomonEncoders checked by syndromes; oracles: race-detector reports (any report is a violation), every digest equal to a sequential baseline process, no panic/deadlock, no blocked library goroutine after quiescence; non-trivial = a distinct (process descriptor, request) whose result was compared with the baseline"
 }
 func (c16) Assumptions() []string {
 	return []string{
@@ -512,6 +512,22 @@ func auxRaceWork(args []string) int {
 	for i, q := range untouchedQ {
 		untouched[i], _ = q.do() // nothing is called on the result before the barrier
 	}
+	// Scale wrappers of fresh instances of the same requests: nothing is called on a
+	// wrapper before the barrier, all goroutines make their first reads of it together
+	untouchedScaled := make([]barcode.Barcode, len(untouchedQ))
+	scaledDims := func(b barcode.Barcode) (int, int) {
+		w, h := 2*b.Bounds().Dx()+1, 2*b.Bounds().Dy()+1
+		if b.Bounds().Dy() == 1 {
+			h = 3
+		}
+		return w, h
+	}
+	for i, q := range untouchedQ {
+		if src, _ := q.do(); src != nil {
+			w, h := scaledDims(src)
+			untouchedScaled[i], _ = barcode.Scale(src, w, h)
+		}
+	}
 	var shared []rsShared
 	for _, fs := range c17Fields {
 		gf := utils.NewGaloisField(fs.pp, fs.size, fs.base)
@@ -578,6 +594,22 @@ func auxRaceWork(args []string) int {
 				}
 				rc.digest, rc.t1 = dg, time.Now()
 				my = append(my, rc)
+			}
+			for k, us := range untouchedScaled {
+				if us == nil {
+					continue
+				}
+				if pv, _ := fw.Call(func() {
+					dg := digest(us)
+					if src, _ := untouchedQ[k].do(); src != nil {
+						w, h := scaledDims(src)
+						if mine, _ := barcode.Scale(src, w, h); mine == nil || digest(mine) != dg {
+							probs[g] = append(probs[g], fmt.Sprintf("untouched shared Scale wrapper: first reads made by all goroutines together differ from a private wrapper of the same request (%s)", untouchedQ[k].Fam))
+						}
+					}
+				}); pv != nil {
+					probs[g] = append(probs[g], fmt.Sprintf("untouched shared Scale wrapper: panic during concurrent first reads (%s): %v", untouchedQ[k].Fam, pv))
+				}
 			}
 			for i, q := range lists[g] {
 				if d.Twin != "" && i > 0 {
